@@ -103,6 +103,41 @@ def implied(node, pm, root=None):
     return out
 
 
+def spell_constants(project, func, node, tuples=True):
+    """module-level names bound once to a literal (number, string; tuple of those when `tuples`) are spelled out, so that naming a
+    constant changes nothing for a shape rule.  Returns a rewritten copy."""
+    def lit(v):
+        if isinstance(v, ast.Constant) and isinstance(v.value, (int, float, str)) and not isinstance(v.value, bool):
+            return True
+        return tuples and isinstance(v, ast.Tuple) and all(lit(x) for x in v.elts)
+
+    class S(ast.NodeTransformer):
+        def visit_Name(self, n):
+            if not isinstance(n.ctx, ast.Load) or n.id in func.locals or n.id in func.params:
+                return n
+            ent = project.resolve_name(func, n.id)
+            if ent is None or ent.kind != 'const':
+                return n
+            vals = ent.obj[2]
+            if len(vals) == 1 and vals[0] is not None and lit(vals[0]):
+                return ast.copy_location(copy.deepcopy(vals[0]), n)
+            return n
+    return S().visit(copy.deepcopy(node))
+
+
+def setattr_as_store(body):
+    """setattr(o, '<name>', v) as a statement  ->  o.<name> = v"""
+    class T(ast.NodeTransformer):
+        def visit_Expr(self, st):
+            c = st.value
+            if isinstance(c, ast.Call) and isinstance(c.func, ast.Name) and c.func.id == 'setattr' and len(c.args) == 3 and not c.keywords \
+                    and isinstance(c.args[1], ast.Constant) and isinstance(c.args[1].value, str) and c.args[1].value.isidentifier():
+                new = ast.Assign(targets=[ast.Attribute(value=c.args[0], attr=c.args[1].value, ctx=ast.Store())], value=c.args[2])
+                return ast.fix_missing_locations(ast.copy_location(new, st))
+            return st
+    return [T().visit(s) for s in body]
+
+
 def unroll_literal_loops(body):
     """for x in (a, b, c): S   ->   S[x:=a]; S[x:=b]; S[x:=c]   (only for loops over displays of plain names/attributes)"""
     out = []
@@ -112,7 +147,7 @@ def unroll_literal_loops(body):
             if isinstance(b, list) and b and isinstance(b[0], ast.stmt):
                 setattr(st, field, unroll_literal_loops(b))
         if isinstance(st, ast.For) and isinstance(st.iter, (ast.Tuple, ast.List)) and not st.orelse \
-                and all(isinstance(e, (ast.Name, ast.Attribute, ast.Tuple)) for e in st.iter.elts) \
+                and all(isinstance(e, (ast.Name, ast.Attribute, ast.Tuple, ast.Constant)) for e in st.iter.elts) \
                 and not any(isinstance(x, (ast.Break, ast.Continue)) for s in st.body for x in ast.walk(s)):
             for e in st.iter.elts:
                 if isinstance(st.target, ast.Name):
